@@ -298,7 +298,7 @@ PROPS = {
         "assumptions": EVAL_ASSUME,
     },
     "C04": {
-        "proof_modules": ["GrolProofs.Props.C04", "GrolProofs.Props.C04Det", "GrolProofs.MemoMono", "GrolProofs.MemoFootprint", "GrolProofs.MemoKey",
+        "proof_modules": ["GrolProofs.Props.C04", "GrolProofs.Props.C04Det", "GrolProofs.Props.C04Hit", "GrolProofs.MemoMono", "GrolProofs.MemoFootprint", "GrolProofs.MemoKey",
                           "GrolProofs.RenQBase", "GrolProofs.RenQEnv", "GrolProofs.RenQVal", "GrolProofs.RenQOps", "GrolProofs.RenQHelpers",
                           "GrolProofs.RenQMain"],
         "theorems": ["Grol.E.C04.off_get", "Grol.E.C04.off_set", "Grol.E.C04.replay", "Grol.E.C04.store_condition",
@@ -310,6 +310,9 @@ PROPS = {
                      "Grol.E.triggerNoCache_loud", "Grol.E.evalDelete_loud", "Grol.E.finishCall_quiet", "Grol.E.applyFunction_quiet",
                      "Grol.E.makeRef_go_quiet", "Grol.E.no_trigger_during", "Grol.E.no_del_during", "Grol.E.nested_call_during",
                      "Grol.E.C04.quiet_call_deterministic", "Grol.E.C04.quiet_call_depends_only_on_trusted", "Grol.E.C04.agree_stRq",
+                     "Grol.E.C04.hit_is_evaluation_of_valid", "Grol.E.C04.cacheGet_hit_mem", "Grol.E.C04.cacheValid_init", "Grol.E.C04.cacheValid_congr",
+                     "Grol.E.C04.cacheValid_clear", "Grol.E.C04.cacheValid_filter", "Grol.E.C04.cacheValid_outs", "Grol.E.C04.cacheValid_budget",
+                     "Grol.E.C04.agree_refl", "Grol.E.hitState_valid", "Grol.R.LoudAt.modifyFrame_bind",
                      "Grol.E.C04.constant_param_is_miss", "Grol.E.C04.purity_footprint_full", "Grol.E.applyFunction_quiet_full",
                      "Grol.E.stRq_miss", "Grol.E.det_agree", "Grol.E.det_run", "Grol.E.ren_id",
                      "Grol.R.qSpec_all", "Grol.R.applyFunction_qstep", "Grol.R.finishCall_loud", "Grol.R.SimG.switch", "Grol.R.SimQ.bind",
